@@ -459,8 +459,10 @@ def fp(x):
     first-visit order so that sharing among them (and cycles) is part of the fingerprint; identity
     of immutable atoms is not"""
     seen = {}
+    keep = []       # temporaries (reduce tuples, state dicts) must stay alive: ids are only unique among live objects
 
     def go(v, depth=0):
+        keep.append(v)
         if depth > 200:
             return "(deep)"
         if v is None or isinstance(v, (bool, int, str, bytes)):
@@ -485,6 +487,7 @@ def fp(x):
             return f"(set#{n} " + " ".join(sorted(go(i, depth + 1) for i in v)) + ")"
         try:
             red = v.__reduce_ex__(4)
+            keep.append(red)
             parts = [go(red[0], depth + 1), go(red[1], depth + 1)]
             if len(red) > 2:
                 parts.append(go(red[2], depth + 1))
@@ -664,12 +667,12 @@ def real_case(case):
         except Exception as e:
             sev = f"raised {type(e).__name__}"
         res["severity"] = sev
-        if sev.startswith("raised"):
-            try:
-                check_safety(Pickled.load(base))
-                fails.append("check_safety-raises")
-            except Exception:
-                res["severity"] = "n/a (check_safety raises on the base pickle as well)"
+        if sev == "raised RecursionError":
+            # self-containing containers make ast.unparse recurse (the DESIGN D19 family, a robustness
+            # matter of the analysis, not of the injector): no rating is produced, in particular not LIKELY_SAFE
+            res["severity"] = "n/a (check_safety raises RecursionError: self-containing container)"
+        elif sev.startswith("raised"):
+            fails.append("check_safety-raises")
         elif sev == "LIKELY_SAFE":
             fails.append("rated-LIKELY_SAFE")
     res["fails"] = fails
@@ -794,6 +797,11 @@ def main(tier, seed):
         chk.stats["helper:" + c["mode"]["helper"]] = chk.stats.get("helper:" + c["mode"]["helper"], 0) + 1
         if r.get("framed"):
             chk.stats["framed"] = chk.stats.get("framed", 0) + 1
+        if str(r.get("severity", "")).startswith("n/a"):
+            chk.stats["check_safety raised RecursionError (self-containing container)"] = \
+                chk.stats.get("check_safety raised RecursionError (self-containing container)", 0) + 1
+        elif r.get("severity"):
+            chk.stats["severity:" + r["severity"]] = chk.stats.get("severity:" + r["severity"], 0) + 1
         if r.get("ncalls_base", 0) >= 1 or r.get("nops", 0) >= 8:
             chk.nontriv((c["hex"], json.dumps(c["mode"], sort_keys=True)))
         rest, sigs = judge(c, r, model_of.get(i))
